@@ -423,9 +423,9 @@ static void setup()
 		}
 	} cleaner;
 	add_generator("unit_identities", 1, case_unit_identities);
-	add_generator("tables", ctx().count(28800, 360000), case_table);
-	add_generator("lists", ctx().count(9600, 120000), case_list);
-	add_generator("functions", ctx().count(4800, 60000), case_function);
-	add_generator("in_units_overloads", ctx().count(32000, 400000), case_in_units);
+	add_generator("tables", ctx().count(28800, 3600000), case_table);
+	add_generator("lists", ctx().count(9600, 1200000), case_list);
+	add_generator("functions", ctx().count(4800, 600000), case_function);
+	add_generator("in_units_overloads", ctx().count(32000, 4000000), case_in_units);
 }
 VERIF_MAIN("C20", setup)
